@@ -325,3 +325,89 @@ def finish(ctx: Ctx, explanation: str, level: str = "other", exhaustive=None,
         print("VIOLATION property=%s replay=%s" % (ctx.pid, rp))
         return EXIT_VIOLATION
     return EXIT_OK
+
+
+# --------------------------------------------------------------------------
+# structural pattern matching with metavariables
+# --------------------------------------------------------------------------
+
+def _pat(src, mode):
+    return ast.parse(src.strip(), mode=mode)
+
+
+def match(pattern, node, binds=None, np_alias=None):
+    """Structural match of an AST against a pattern AST.  In the pattern, a Name whose id starts with `M_`
+    is a metavariable for an identifier (bound consistently in `binds`), `X_` prefixed names match any
+    expression (bound to its dump), and the name `NP` matches any numpy alias of the module.
+    Returns the binding dict or None."""
+    binds = {} if binds is None else binds
+
+    def m(p, n):
+        if isinstance(p, ast.Name):
+            if p.id.startswith("M_"):
+                if not isinstance(n, ast.Name):
+                    return False
+                if p.id in binds:
+                    return binds[p.id] == n.id
+                binds[p.id] = n.id
+                return True
+            if p.id.startswith("X_"):
+                if not isinstance(n, ast.AST):
+                    return False
+                d = ast.dump(n)
+                if p.id in binds:
+                    return binds[p.id] == d
+                binds[p.id] = d
+                return True
+            if p.id == "NP":
+                return isinstance(n, ast.Name) and (np_alias is None or n.id in np_alias)
+            return isinstance(n, ast.Name) and n.id == p.id
+        if isinstance(p, ast.arg):
+            return isinstance(n, ast.arg) and (p.arg == n.arg or p.arg.startswith("M_"))
+        if isinstance(p, ast.Constant):
+            if not isinstance(n, ast.Constant):
+                return False
+            a, b = p.value, n.value
+            if isinstance(a, (int, float)) and isinstance(b, (int, float)) and not isinstance(a, bool) and not isinstance(b, bool):
+                return float(a) == float(b)
+            return a == b and type(a) is type(b)
+        if isinstance(p, ast.AST):
+            if type(p) is not type(n):
+                return False
+            for f in p._fields:
+                if f in ("ctx", "type_comment", "kind"):
+                    continue
+                if not m(getattr(p, f, None), getattr(n, f, None)):
+                    return False
+            return True
+        if isinstance(p, list):
+            return isinstance(n, list) and len(p) == len(n) and all(m(a, b) for a, b in zip(p, n))
+        return p == n
+    saved = dict(binds)
+    if m(pattern, node):
+        return binds
+    binds.clear()
+    binds.update(saved)
+    return None
+
+
+def match_stmt(src, node, binds=None, np_alias=None):
+    p = _pat(src, "exec").body
+    if len(p) != 1:
+        raise ValueError("pattern must be one statement")
+    return match(p[0], node, binds, np_alias)
+
+
+def match_expr(src, node, binds=None, np_alias=None):
+    return match(_pat(src, "eval").body, node, binds, np_alias)
+
+
+def find_stmt(src, root, binds=None, np_alias=None):
+    """all statements under root matching the pattern (each with its own copy of the bindings)"""
+    out = []
+    for n in ast.walk(root):
+        if isinstance(n, ast.stmt):
+            b = dict(binds or {})
+            if match_stmt(src, n, b, np_alias) is not None:
+                out.append((n, b))
+    return out
